@@ -82,7 +82,7 @@ Section SparseSpec.
   (* Recomputation of the root from the digest [cur] of the subtree reached after following
      the key bits [ks] for [length sides] steps; [sides] are the sibling digests TOP-DOWN
      (root's child first).  None: more side nodes than key bits. *)
-  Fixpoint path_root (ks : key) (sides : list Dg) (cur : Dg) : option Dg :=
+  Fixpoint path_root (ks : key) (sides : list Dg) (cur : Dg) {struct sides} : option Dg :=
     match sides with
     | [] => Some cur
     | s :: sides' =>
